@@ -42,7 +42,7 @@ CHECKS = {
     "C15": seq(["TestC15"], qchecks=20, tchecks=400, qshards=8),
     "C17": seq(["TestC17", "TestC17Race"], per_test={"TestC17Race": (4, 120, 16, 3000)}),
     "C18": seq(["TestC18Seq", "TestC18Race"], qchecks=400, fuzz={"FuzzC18Path": 240}, per_test={"TestC18Race": SCRIPT}),
-    "C19": seq(["TestC19"]),
+    "C19": seq(["TestC19"], qchecks=400),
     "C20": seq(["TestC20"], qchecks=3, tchecks=40, qshards=6),
     "C16": seq(["TestC16"], qchecks=20, tchecks=300, qshards=6),
 }
